@@ -265,4 +265,135 @@ Section Batch.
     - intros q r Hr. unfold st' in Hr; cbn in Hr.
       destruct (Nat.eq_dec q p) as [->|N]; [rewrite upd_same in Hr; cbn in Hr; apply (bv_res0 p r Hr) | rewrite upd_other in Hr by exact N; apply (bv_res0 q r Hr)].
   Qed.
+
+  (* (C2) the memcpy into the claimed interval *)
+  Lemma binv_write st p one vs wn i :
+    BInv st -> t_pc (b_thr st p) = Some (BPushWr one vs i wn i) ->
+    BInv (b_goto (mkB (b_head st) (b_tail st) (b_whead st) (b_rtail st)
+                      (ring_write c (b_slot st) i (firstn (Z.to_nat wn) vs))
+                      (b_gt st) (b_grt st) (b_gval st) (b_gwho st) (b_thr st))
+                 p (BPushCasW one i wn i (firstn (Z.to_nat wn) vs))).
+  Proof.
+    intros I Epc. pose proof (bv_pc st I p _ Epc) as K. cbn [bpc_ok] in K. destruct K as (_ & K2 & K3 & K4 & K5).
+    set (ws := firstn (Z.to_nat wn) vs) in *.
+    assert (Lws : Z.of_nat (length ws) = wn) by (unfold ws; rewrite firstn_length; lia).
+    pose proof Hcap0 as Hcp. pose proof (cfg_cap_lt_W c Hc) as HcW. fold cap in HcW.
+    pose proof I as I0. destruct I. destruct bv_ord0 as (O1 & O2 & O3 & O4 & O5). unfold bnowrap in bv_g0.
+    assert (Ei : i = wrap i) by (symmetry; apply wrap_small; lia).
+    set (st1 := mkB (b_head st) (b_tail st) (b_whead st) (b_rtail st) (ring_write c (b_slot st) i ws)
+                    (b_gt st) (b_grt st) (b_gval st) (b_gwho st) (b_thr st)).
+    assert (Hoth : forall j, (forall k, 0 <= k < wn -> j mod cap <> (i + k) mod cap) -> b_slot st1 (j mod cap) = b_slot st (j mod cap)).
+    { intros j Hj. unfold st1; cbn. rewrite Ei. apply (ring_write_other c Hc). intros k Hk. fold cap. apply Hj. lia. }
+    assert (I1 : BInv st1).
+    { constructor; try assumption.
+      - repeat split; assumption.
+      - intros q pcq E. change (b_thr st1 q) with (b_thr st q) in E. pose proof (bv_pc0 q pcq E) as Kq.
+        destruct pcq; try exact Kq. cbn [bpc_ok] in *. destruct Kq as (A & B & C0 & D & F & G).
+        repeat split; try assumption; try (apply G; assumption).
+        destruct (Nat.eq_dec q p) as [->|N]; [rewrite Epc in E; discriminate|].
+        rewrite Hoth; [apply G; assumption|].
+        intros k' Hk'. destruct (bv_wdisj0 q p _ _ i0 wn0 i wn N E Epc eq_refl eq_refl) as [Dj|Dj].
+        + apply (slot_ne_of_close cap); lia.
+        + intros Es. symmetry in Es. revert Es. apply (slot_ne_of_close cap); lia.
+      - intros j Hj. change (b_gval st1 j) with (b_gval st j). rewrite Hoth; [apply bv_data0; exact Hj|].
+        intros k Hk. apply (slot_ne_of_close cap); cbn in Hj; lia. }
+    apply (binv_goto st1 p (BPushWr one vs i wn i)); try exact I1; try exact Epc; try reflexivity.
+    cbn [bpc_ok]. change (b_whead st1) with (b_whead st). change (b_tail st1) with (b_tail st). change (b_gval st1) with (b_gval st).
+    repeat split; try lia; try (apply K5; assumption).
+    unfold st1; cbn. rewrite Ei. fold cap. unfold cap. apply (ring_write_at c Hc); fold cap; lia.
+  Qed.
+
+  (* (C3) publication: write_head moves over the interval of its holder, which returns *)
+  Lemma binv_publish st p one wn i ws :
+    BInv st -> t_pc (b_thr st p) = Some (BPushCasW one i wn i ws) -> b_whead st = i ->
+    BInv (b_finish (mkB (b_head st) (b_tail st) (i + wn) (b_rtail st) (b_slot st) (b_gt st) (b_grt st) (b_gval st) (b_gwho st) (b_thr st))
+                   p (if one then RPushOk i (hd 0 ws) else RPushB i ws)).
+  Proof.
+    intros I Epc Ew. pose proof (bv_pc st I p _ Epc) as K. cbn [bpc_ok] in K. destruct K as (_ & K2 & K3 & K4 & K5 & K6).
+    set (r := if one then RPushOk i (hd 0 ws) else RPushB i ws).
+    set (st' := b_finish _ p r).
+    pose proof I as I0. destruct I. destruct bv_ord0 as (O1 & O2 & O3 & O4 & O5).
+    assert (Hthr : forall q, q <> p -> b_thr st' q = b_thr st q) by (intros q N; unfold st', b_finish, b_set_thr; cbn; apply upd_other; exact N).
+    assert (Hthp : b_thr st' p = thr_finish batch_entry (b_thr st p) r) by (unfold st', b_finish, b_set_thr; cbn; apply upd_same).
+    assert (Hro : res_ok st' r).
+    { unfold r. destruct one; cbn [res_ok]; change (b_tail st') with (b_tail st); change (b_gval st') with (b_gval st).
+      - split; [lia|]. destruct (K6 0 ltac:(lia)) as [G _]. rewrite Z.add_0_r in G. rewrite G. destruct ws; reflexivity.
+      - split; [lia|]. intros k Hk. apply K6. lia. }
+    constructor; try assumption.
+    - unfold st'; cbn. repeat split; lia.
+    - intros q pcq E. destruct (Nat.eq_dec q p) as [->|N].
+      + rewrite Hthp in E. apply bfinish_pc in E. destruct E as (o & rest & Eo & ->). apply entry_bok.
+        pose proof (bv_ops0 p) as F. rewrite Eo in F. inversion F; assumption.
+      + rewrite Hthr in E by exact N. pose proof (bv_pc0 q pcq E) as Kq.
+        destruct pcq; cbn [bpc_ok] in *; change (b_whead st') with (i + wn); change (b_tail st') with (b_tail st);
+          change (b_head st') with (b_head st); change (b_rtail st') with (b_rtail st);
+          change (b_gval st') with (b_gval st); change (b_slot st') with (b_slot st); try exact Kq.
+        * destruct Kq as (A & B & C0 & D). repeat split; try assumption.
+          destruct (bv_wdisj0 q p _ _ i0 wn0 i wn N E Epc eq_refl eq_refl); lia.
+        * destruct Kq as (A & B & C0 & D). repeat split; try assumption.
+          destruct (bv_wdisj0 q p _ _ i0 wn0 i wn N E Epc eq_refl eq_refl); lia.
+        * destruct Kq as (A & B & C0). repeat split; try assumption. intros Hr. specialize (C0 Hr). lia.
+    - intros q. destruct (Nat.eq_dec q p) as [->|N]; [rewrite Hthp; apply bfinish_ops; apply bv_ops0 | rewrite Hthr by exact N; apply bv_ops0].
+    - intros q1 q2 pc1 pc2 a k b l N E1 E2 H1 H2.
+      assert (A1 : q1 <> p) by (intros Eq; rewrite Eq, Hthp in E1; apply bfinish_pc in E1; destruct E1 as (o & ? & ? & ->); destruct (entry_noint o); congruence).
+      assert (A2 : q2 <> p) by (intros Eq; rewrite Eq, Hthp in E2; apply bfinish_pc in E2; destruct E2 as (o & ? & ? & ->); destruct (entry_noint o); congruence).
+      rewrite Hthr in E1 by exact A1. rewrite Hthr in E2 by exact A2. apply (bv_wdisj0 q1 q2 pc1 pc2 a k b l N E1 E2 H1 H2).
+    - intros q1 q2 pc1 pc2 a k b l N E1 E2 H1 H2.
+      assert (A1 : q1 <> p) by (intros Eq; rewrite Eq, Hthp in E1; apply bfinish_pc in E1; destruct E1 as (o & ? & ? & ->); destruct (entry_noint o); congruence).
+      assert (A2 : q2 <> p) by (intros Eq; rewrite Eq, Hthp in E2; apply bfinish_pc in E2; destruct E2 as (o & ? & ? & ->); destruct (entry_noint o); congruence).
+      rewrite Hthr in E1 by exact A1. rewrite Hthr in E2 by exact A2. apply (bv_rdisj0 q1 q2 pc1 pc2 a k b l N E1 E2 H1 H2).
+    - intros j Hj. unfold st' in Hj; cbn in Hj. change (b_slot st' (j mod cap)) with (b_slot st (j mod cap)). change (b_gval st' j) with (b_gval st j).
+      destruct (Z_lt_dec j i) as [L|G]; [apply bv_data0; lia|].
+      destruct (K6 (j - i) ltac:(lia)) as [G1 G2]. replace (i + (j - i)) with j in * by lia. congruence.
+    - intros q x Hx. destruct (Nat.eq_dec q p) as [->|N].
+      + rewrite Hthp in Hx. apply bfinish_res in Hx. destruct Hx as [->|Hx]; [exact Hro | apply (bv_res0 p x Hx)].
+      + rewrite Hthr in Hx by exact N. apply (bv_res0 q x Hx).
+  Qed.
+
+  (* (C5) release: head moves over the interval of its holder, which returns the values it read *)
+  Lemma binv_release st p one rn i vs :
+    BInv st -> t_pc (b_thr st p) = Some (BPopCasH one i rn i vs) -> b_head st = i ->
+    BInv (b_finish (mkB (i + rn) (b_tail st) (b_whead st) (b_rtail st) (b_slot st) (b_gt st) (b_grt st) (b_gval st) (b_gwho st) (b_thr st))
+                   p (if one then RPopOk i (hd 0 vs) else RPopB i vs)).
+  Proof.
+    intros I Epc Eh. pose proof (bv_pc st I p _ Epc) as K. cbn [bpc_ok] in K. destruct K as (_ & K2 & K3 & K4 & K5).
+    set (r := if one then RPopOk i (hd 0 vs) else RPopB i vs).
+    set (st' := b_finish _ p r).
+    pose proof I as I0. destruct I. destruct bv_ord0 as (O1 & O2 & O3 & O4 & O5).
+    assert (Hthr : forall q, q <> p -> b_thr st' q = b_thr st q) by (intros q N; unfold st', b_finish, b_set_thr; cbn; apply upd_other; exact N).
+    assert (Hthp : b_thr st' p = thr_finish batch_entry (b_thr st p) r) by (unfold st', b_finish, b_set_thr; cbn; apply upd_same).
+    assert (Lvs : length vs = Z.to_nat rn) by (rewrite K5, map_length, zseq_length; reflexivity).
+    assert (Hro : res_ok st' r).
+    { unfold r. destruct one; cbn [res_ok]; change (b_tail st') with (b_tail st); change (b_gval st') with (b_gval st).
+      - split; [lia|]. rewrite K5. destruct (Z.to_nat rn) eqn:En; [lia|]. reflexivity.
+      - split; [lia|]. split; [rewrite Lvs; lia|]. rewrite Lvs. exact K5. }
+    constructor; try assumption.
+    - unfold st'; cbn. repeat split; lia.
+    - intros q pcq E. destruct (Nat.eq_dec q p) as [->|N].
+      + rewrite Hthp in E. apply bfinish_pc in E. destruct E as (o & rest & Eo & ->). apply entry_bok.
+        pose proof (bv_ops0 p) as F. rewrite Eo in F. inversion F; assumption.
+      + rewrite Hthr in E by exact N. pose proof (bv_pc0 q pcq E) as Kq.
+        destruct pcq; cbn [bpc_ok] in *; change (b_whead st') with (b_whead st); change (b_tail st') with (b_tail st);
+          change (b_head st') with (i + rn); change (b_rtail st') with (b_rtail st);
+          change (b_gval st') with (b_gval st); change (b_slot st') with (b_slot st); try exact Kq.
+        * destruct Kq as (A & B & C0). repeat split; try assumption. intros Hr. specialize (C0 Hr). lia.
+        * destruct Kq as (A & B & C0 & D). repeat split; try assumption.
+          destruct (bv_rdisj0 q p _ _ i0 rn0 i rn N E Epc eq_refl eq_refl); lia.
+        * destruct Kq as (A & B & C0 & D & F). repeat split; try assumption.
+          destruct (bv_rdisj0 q p _ _ i0 rn0 i rn N E Epc eq_refl eq_refl); lia.
+    - intros q. destruct (Nat.eq_dec q p) as [->|N]; [rewrite Hthp; apply bfinish_ops; apply bv_ops0 | rewrite Hthr by exact N; apply bv_ops0].
+    - intros q1 q2 pc1 pc2 a k b l N E1 E2 H1 H2.
+      assert (A1 : q1 <> p) by (intros Eq; rewrite Eq, Hthp in E1; apply bfinish_pc in E1; destruct E1 as (o & ? & ? & ->); destruct (entry_noint o); congruence).
+      assert (A2 : q2 <> p) by (intros Eq; rewrite Eq, Hthp in E2; apply bfinish_pc in E2; destruct E2 as (o & ? & ? & ->); destruct (entry_noint o); congruence).
+      rewrite Hthr in E1 by exact A1. rewrite Hthr in E2 by exact A2. apply (bv_wdisj0 q1 q2 pc1 pc2 a k b l N E1 E2 H1 H2).
+    - intros q1 q2 pc1 pc2 a k b l N E1 E2 H1 H2.
+      assert (A1 : q1 <> p) by (intros Eq; rewrite Eq, Hthp in E1; apply bfinish_pc in E1; destruct E1 as (o & ? & ? & ->); destruct (entry_noint o); congruence).
+      assert (A2 : q2 <> p) by (intros Eq; rewrite Eq, Hthp in E2; apply bfinish_pc in E2; destruct E2 as (o & ? & ? & ->); destruct (entry_noint o); congruence).
+      rewrite Hthr in E1 by exact A1. rewrite Hthr in E2 by exact A2. apply (bv_rdisj0 q1 q2 pc1 pc2 a k b l N E1 E2 H1 H2).
+    - intros j Hj. unfold st' in Hj; cbn in Hj. change (b_slot st' (j mod cap)) with (b_slot st (j mod cap)). change (b_gval st' j) with (b_gval st j).
+      apply bv_data0. lia.
+    - intros q x Hx. destruct (Nat.eq_dec q p) as [->|N].
+      + rewrite Hthp in Hx. apply bfinish_res in Hx. destruct Hx as [->|Hx]; [exact Hro | apply (bv_res0 p x Hx)].
+      + rewrite Hthr in Hx by exact N. apply (bv_res0 q x Hx).
+  Qed.
 End Batch.
